@@ -75,8 +75,9 @@ Comb(k, a, b) ==
     [] k = "eq"     -> Bin("==", a, b)
     [] k = "list"   -> Lst(<<a, b>>)
     [] k = "args"   -> Call(V(GShow2), <<a, b>>)
-    [] k = "blob"   -> IIFE(TInt, <<DefC(OP, TName("P2"), BlobL("P2", <<FI("a", a), FI("b", b)>>)),
-                                    Ex(Bin("-", Bin("*", Fld(V(OP), "a"), I(100)), Fld(V(OP), "b")))>>)
+    \* the fields are written in NON-alphabetical order (zz before aa): initialisers run in source order
+    [] k = "blob"   -> IIFE(TInt, <<DefC(OP, TName("P2"), BlobL("P2", <<FI("zz", a), FI("aa", b)>>)),
+                                    Ex(Bin("-", Bin("*", Fld(V(OP), "zz"), I(100)), Fld(V(OP), "aa")))>>)
     [] k = "nest"   -> Bin("+", a, Bin("*", b, I(2)))
     [] k = "callsum" -> Call(V(GInc), <<Bin("+", a, b)>>)
     [] k = "variant" -> Var1("E", "X", Bin("-", a, b))
@@ -100,6 +101,36 @@ FnVarExprs == [
   methodthen  |-> Tup(<<Call(Fld(V(OO), "get"), <<>>), Call(Fld(V(OO), "add"), <<I(2)>>), Call(Fld(V(OO), "get"), <<>>)>>),
   applyarg    |-> Call(V(GMkP), <<V(OF), Call(V(OUp), <<>>), I(1)>>) ]
 
+\* compound assignment whose right-hand side changes the target (`t op= m`: t is read first), on every kind of target and
+\* with every operator; and containers that hold the SAME object twice, printed before and after a change through one alias
+OV == 36
+OL == 37
+CompoundStmts(w, op) ==
+  LET tgt == Reader(w) IN
+  <<Asg(op, tgt, Mutator(w)), Print(tgt), Asg(op, tgt, Bin("+", Mutator(w), I(1))), Print(tgt)>>
+StmtCases ==
+  {[o |-> "ord-" \o w, pos |-> 0, i |-> "compound" \o op, h |-> "orderstmt", body |-> CompoundStmts(w, op)]
+     : w \in Watched, op \in {"+=", "-=", "*="}}
+  \* a loop condition reads state that only a call in the body changes (the condition is re-evaluated every time round)
+  \cup {[o |-> "ord-" \o w, pos |-> 0, i |-> "loopcond", h |-> "orderstmt",
+         body |-> <<DefM(OV, TInt, I(0)),
+                    Loop(Bin("<", Reader(w), I(24)),
+                         <<Ex(Mutator(w)), Asg("+=", V(OV), I(1)), Ex(If1(Bin(">=", V(OV), I(6)), <<Break>>))>>),
+                    Print(V(OV)),
+                    Loop(Bin("and", Bin("<", V(OV), I(9)), Bin("<", Reader(w), I(40))),
+                         <<Ex(Mutator(w)), Asg("+=", V(OV), I(1))>>),
+                    Print(V(OV))>>] : w \in Watched}
+  \cup {[o |-> "ord-share", pos |-> 0, i |-> "list-twice", h |-> "orderstmt",
+         body |-> <<DefC(OL, TListI, Lst(<<I(1), I(2)>>)),
+                    Print(Lst(<<V(OL), V(OL)>>)), Print(Tup(<<V(OL), V(OL)>>)),
+                    Ex(Call(Std("list.push"), <<V(OL), I(3)>>)),
+                    Print(Lst(<<V(OL), Lst(<<I(1), I(2), I(3)>>), V(OL)>>)),
+                    Print(Bin("==", Lst(<<V(OL), V(OL)>>), Lst(<<Lst(<<I(1), I(2), I(3)>>), V(OL)>>)))>>],
+        [o |-> "ord-share", pos |-> 0, i |-> "blob-twice", h |-> "orderstmt",
+         body |-> <<Print(Tup(<<Fld(V(OO), "n"), Fld(V(OO), "n")>>)),
+                    Print(Lst(<<Call(Fld(V(OO), "get"), <<>>), Call(Fld(V(OO), "add"), <<I(2)>>), Call(Fld(V(OO), "get"), <<>>)>>)),
+                    Print(Tup(<<Lst(<<Fld(V(OO), "n")>>), Lst(<<Fld(V(OO), "n")>>)>>))>>]}
+
 OrderIds ==
   {[w |-> w, f |-> f, k |-> k, dir |-> d] : w \in Watched, f \in ObsForms, k \in CombNames, d \in {"om", "mo"}}
 OrderCases ==
@@ -110,7 +141,7 @@ OrderCases ==
 FnT1 == TFn(<<TInt>>, TInt)
 HOrder(e) ==
   Prelude \o <<
-    BlobD("P2", <<FD("a", TInt), FD("b", TInt)>>),
+    BlobD("P2", <<FD("zz", TInt), FD("aa", TInt)>>),
     DefN(GShow2, "const", TNone,
          Fn(<<P(41, TInt), P(42, TInt)>>, TInt, <<Print(V(41)), Print(V(42)), Ex(Bin("-", V(41), V(42)))>>), "show2"),
     StartDef(Locals \o <<
@@ -120,6 +151,14 @@ HOrder(e) ==
       DefC(OUp, TFn(<<>>, TInt),
            Fn(<<>>, TInt, <<Asg("=", V(OF), Fn(<<P(44, TInt)>>, TInt, <<Ex(Bin("*", V(44), I(100)))>>)), Ex(I(2))>>)),
       Print(e), Print(X), Print(V(GG)), Print(Fld(V(OO), "n")), Print(Call(V(OF), <<I(1)>>))>>)>>
+
+HOrderStmt(body) ==
+  Prelude \o <<
+    BlobD("P2", <<FD("zz", TInt), FD("aa", TInt)>>),
+    StartDef(Locals \o <<
+      DefC(OBx, TFn(<<>>, TInt), Fn(<<>>, TInt, <<Asg("+=", X, I(10)), Ex(X)>>)),
+      DefC(OO, TB, Call(V(GMkB), <<I(1)>>))>> \o body \o
+      <<Print(X), Print(V(GG)), Print(Fld(V(OO), "n"))>>)>>
 
 (* ---- RE-ENTRANCY ------------------------------------------------------ *)
 NLevel == V(13)
@@ -156,6 +195,24 @@ HRecDep(e, ty) == Prelude \o <<
              DefC(21, TTuple(<<TyOf(ty), TInt>>), Tup(<<e, Call(V(GRec), <<Bin("-", NLevel, I(1))>>)>>)),
              Print(V(21)), Ex(NLevel)>>), "rec"),
    StartDef(<<Print(Call(V(GRec), <<I(3)>>)), Print(V(GG))>>)>>
+
+\* the same inside a LONG function: K further call results are live before the held value (an emitter that runs out of
+\* Lua locals must not fall back to something shared between activations)
+RECURSIVE Pads(_, _)
+Pads(i, k) == IF i > k THEN <<>> ELSE <<DefC(600 + i, TInt, Call(V(GInc), <<I(i)>>))>> \o Pads(i + 1, k)
+HRecDepBig(e, ty, k) == Prelude \o <<
+   DefN(GRec, "const", TNone,
+        Fn(<<P(13, TInt)>>, TInt,
+           <<Ex(If1(Bin("<=", NLevel, I(0)), <<Ret(I(0))>>)),
+             DefM(11, TInt, Bin("+", NLevel, I(3))), DefC(12, TInt, I(5))>> \o Pads(1, k) \o
+           <<DefC(21, TTuple(<<TyOf(ty), TInt>>), Tup(<<e, Call(V(GRec), <<Bin("-", NLevel, I(1))>>)>>)),
+             Print(V(21)), Ex(Bin("+", NLevel, V(600 + k)))>>), "rec"),
+   StartDef(<<Print(Call(V(GRec), <<I(3)>>)), Print(V(GG))>>)>>
+BigTemplates == {"add", "mul", "neg", "ifx", "casex", "and", "or", "not", "tlit", "llit", "ex", "cat", "callinc", "lt", "fadd"}
+BigSizes == {44, 50, 54}    \* about 153, 171 and 183 Lua locals live at the held value (Lua allows 200)
+ReentBig ==
+  UNION { {[o |-> n, pos |-> k, i |-> "big", h |-> "recdepbig", e |-> e, ty |-> ResultType(n), k |-> k] : e \in InstancesDep(n, 100, 0)}
+          : n \in BigTemplates, k \in BigSizes }
 
 ReentSingles ==
   UNION { {[o |-> n, pos |-> 0, i |-> "-", h |-> "recdep", e |-> e, ty |-> ResultType(n)] : e \in InstancesDep(n, 100, 0)}
